@@ -262,13 +262,105 @@ theorem chunkLoop_spec (split : Bytes → Int) (bufsz : Nat) (s : Stream) (hb : 
         · omega
       have hlt := emit_length_lt split out _ hpos (endp_pos split hs _ hpos)
       rw [e1, List.length_append, hlen] at hlt
-      rw [e2]
+      rw [e1, e2]
       omega
     · rw [e3]
       refine ⟨pairs1, hacc2.eols, hacc2.out_eq, ?_, rfl⟩
       have := hacc2.data_eq
       rw [e2, hend, List.take_length] at this
       exact this
+
+/-! ## `readChunks` -/
+
+/-- the end of `ReadSeqFileChunk`: push the rest of the buffer, or `log.Fatalf` -/
+def finish (r : List Bytes × Bytes × Option Err) : List Bytes × Outcome :=
+  match r.2.2 with
+  | some Err.eof | none => (if r.2.1.length > 0 then r.1 ++ [r.2.1] else r.1, .ok)
+  | some _ => (r.1, .fatal)
+
+theorem readChunks_eq (split : Bytes → Int) (bufsz : Nat) (s : Stream) :
+    readChunks split bufsz s =
+      finish (if bufsz ≤ s.data.length then
+                chunkLoop split bufsz s (s.data.length + 2) [] (s.data.take bufsz) bufsz
+              else if s.final = Err.eof ∧ 0 < s.data.length then
+                chunkLoop split bufsz s (s.data.length + 2) [] s.data s.data.length
+              else ([], s.data, some s.final)) := by
+  unfold readChunks readFull
+  by_cases h : bufsz ≤ s.data.length
+  · have hl : (List.take bufsz s.data).length = bufsz := by simp; omega
+    simp only [Nat.sub_zero, h, if_true, List.drop_zero, hl]
+    generalize chunkLoop split bufsz s (s.data.length + 2) [] (s.data.take bufsz) bufsz = r
+    rcases r with ⟨a, b, _ | _ | _ | _⟩ <;> simp [finish]
+  · simp only [Nat.sub_zero, h, if_false, List.drop_zero]
+    by_cases h2 : s.final = Err.eof ∧ 0 < s.data.length
+    · simp only [h2, gt_iff_lt, decide_true, Bool.and_self, if_true, and_self]
+      generalize chunkLoop split bufsz s (s.data.length + 2) [] s.data s.data.length = r
+      rcases r with ⟨a, b, _ | _ | _ | _⟩ <;> simp [finish]
+    · have h3 : (decide (some s.final = some Err.eof) && decide (s.data.length > 0)) = false := by
+        simpa using h2
+      simp only [h2, h3, if_false, Bool.false_eq_true]
+      cases s.final <;> simp [finish]
+
+/-- `readChunks` in closed form: the stream is cut into chunks, each followed by the end-of-line
+bytes stripped from it, and a last buffer; the outcome depends on the final error only -/
+theorem readChunks_spec (split : Bytes → Int) (bufsz : Nat) (s : Stream) (hb : 2 ≤ bufsz)
+    (hs : ∀ b : Bytes, split b = -1 ∨ (1 ≤ split b ∧ split b ≤ (b.length : Int))) :
+    ∃ (pairs : List (Bytes × Bytes)) (buff : Bytes), EolsOnly pairs ∧ joinPairs pairs ++ buff = s.data ∧
+      readChunks split bufsz s = finish (chunksOf pairs, buff, some s.final) := by
+  have hnil : EolsOnly [] := fun p hp => by simp at hp
+  rw [readChunks_eq]
+  by_cases h : bufsz ≤ s.data.length
+  · simp only [h, if_true]
+    obtain ⟨pairs, h1, h2, h3, h4⟩ := chunkLoop_spec split bufsz s hb hs (s.data.length + 2) [] []
+      (s.data.take bufsz) bufsz ⟨hnil, rfl, by simp [joinPairs], h⟩
+      (by simp only [List.length_take]; omega)
+    refine ⟨pairs, _, h1, h3, ?_⟩
+    rw [← h2, ← h4]
+  · simp only [h, if_false]
+    by_cases h2 : s.final = Err.eof ∧ 0 < s.data.length
+    · rw [if_pos h2]
+      obtain ⟨pairs, h1, h2, h3, h4⟩ := chunkLoop_spec split bufsz s hb hs (s.data.length + 2) [] []
+        s.data s.data.length ⟨hnil, rfl, by simp [joinPairs], Nat.le_refl _⟩ (by omega)
+      refine ⟨pairs, _, h1, h3, ?_⟩
+      rw [← h2, ← h4]
+    · rw [if_neg h2]
+      exact ⟨[], s.data, hnil, by simp [joinPairs], rfl⟩
+
+/-! ## consequences of the accounting: nothing invented, nothing reordered, only end-of-lines lost -/
+
+theorem chunksOf_flatten_cons (p : Bytes × Bytes) (ps : List (Bytes × Bytes)) :
+    (chunksOf (p :: ps)).flatten = p.1 ++ (chunksOf ps).flatten := by
+  by_cases h : 0 < p.1.length
+  · simp [chunksOf, h]
+  · have : p.1 = [] := List.eq_nil_of_length_eq_zero (by omega)
+    simp [chunksOf, this]
+
+theorem joinPairs_cons (p : Bytes × Bytes) (ps : List (Bytes × Bytes)) :
+    joinPairs (p :: ps) = p.1 ++ p.2 ++ joinPairs ps := by
+  simp [joinPairs]
+
+theorem chunksOf_flatten_sublist : ∀ pairs : List (Bytes × Bytes),
+    (chunksOf pairs).flatten.Sublist (joinPairs pairs)
+  | [] => by simp [chunksOf, joinPairs]
+  | p :: ps => by
+    rw [chunksOf_flatten_cons, joinPairs_cons]
+    exact List.Sublist.append (List.sublist_append_left _ _) (chunksOf_flatten_sublist ps)
+
+theorem filter_eols_nil : ∀ (e : Bytes), (∀ c ∈ e, c = 10 ∨ c = 13) → e.filter (fun c => !isEol c) = []
+  | [], _ => rfl
+  | a :: e, h => by
+    have ha : isEol a = true := (isEol_iff a).2 (h a (List.mem_cons_self))
+    rw [List.filter_cons]
+    simp only [ha, Bool.not_true, Bool.false_eq_true, if_false]
+    exact filter_eols_nil e (fun c hc => h c (List.mem_cons_of_mem _ hc))
+
+theorem chunksOf_filter : ∀ pairs : List (Bytes × Bytes), EolsOnly pairs →
+    (joinPairs pairs).filter (fun c => !isEol c) = (chunksOf pairs).flatten.filter (fun c => !isEol c)
+  | [], _ => by simp [chunksOf, joinPairs]
+  | p :: ps, h => by
+    rw [chunksOf_flatten_cons, joinPairs_cons, List.filter_append, List.filter_append, List.filter_append,
+      filter_eols_nil p.2 (h p List.mem_cons_self), List.append_nil,
+      chunksOf_filter ps (fun q hq => h q (List.mem_cons_of_mem _ hq))]
 
 /-! ## the backward scan of the FASTA splitter -/
 
